@@ -50,7 +50,7 @@ META = {
     'components_real': ['TapeRecorder sampling decision, force / discard / skip handling', 'S3TapeCassette._should_sample', 'random.Random (history part)'],
     'components_stub': ['scripted RNG (table part)', 'spy cassette', 'S3 bucket'],
     'budgets': {'quick': {'seconds': 25}, 'thorough': {'seconds': 300}},
-    'required_probes': {'quick': ['table_row'], 'thorough': ['table_row', 'history_same_seed', 'history_paired', 'history_mixed_classes', 's3_calculator', 'straggler_force']},
+    'required_probes': {'quick': ['table_row'], 'thorough': ['table_row', 'history_same_seed', 'history_paired', 'history_mixed_classes', 's3_calculator', 'straggler_force', 'operation_inherited_by_classes_with_other_parameters', 'parameters_applied_after_first_run']},
 }
 
 
@@ -99,7 +99,9 @@ def straggler_force(tape):
 
 def run_tape(tape):
     with seams.deterministic(tape) as clock:
-        mode = tape.draw(7)
+        mode = tape.draw(8)
+        if mode == 7:
+            return inherited_operation(tape)
         if mode == 6:
             return straggler_force(tape)
         if mode == 1:
@@ -278,6 +280,88 @@ def history_mixed(tape):
     return run
 
 
+def inherited_operation(tape):
+    """One decorated operation declared on a base class and inherited by service classes that carry different recording
+    parameters (and parameters applied to a class after its operation already ran): every run is decided by the
+    parameters of the class it runs on."""
+    from playback.tape_recorder import RecordingParameters
+    run = Run(PROP)
+    spy = R.SpyCassette(InMemoryTapeCassette(), run)
+    recorder = TapeRecorder(spy)
+    recorder.enable_recording()
+    rng = R.ScriptedRandom([])
+    recorder._random = rng
+    opkind = tape.choice(OPKIND)
+    plan = {}
+
+    def body():
+        if plan['forced']:
+            recorder.force_sample_recording()
+        if plan['discard']:
+            recorder.discard_recording()
+        if plan['outcome'] == 'raise':
+            raise R.D.ErrA()
+        if plan['outcome'] == 'interrupt':
+            raise R.D.Interrupt()
+        return 'done'
+
+    if opkind == 'class':
+        class Base(object):
+            @classmethod
+            @recorder.class_operation()
+            def execute(cls):
+                return body()
+    else:
+        class Base(object):
+            @recorder.operation()
+            def execute(self):
+                return body()
+    classes = []
+    for n in range(2 + tape.draw(3)):
+        params = {'sampling_rate': tape.choice(RATES), 'ignore_enforced_sampling': bool(tape.draw(2)), 'skipped': tape.draw(3) == 2}
+        late = tape.draw(4) == 3          # parameters are applied only after the class ran once with the defaults
+        cls = type('Service%d' % n, (Base,), {})
+        if not late:
+            recorder.recording_params(RecordingParameters(**params))(cls)
+        classes.append([cls, params, late])
+    run.probe('operation_inherited_by_classes_with_other_parameters')
+    run.nontrivial = True
+    defaults = {'sampling_rate': 1, 'ignore_enforced_sampling': False, 'skipped': False}
+    for i in range(3 + tape.draw(10)):
+        entry = tape.choice(classes)
+        cls, params, late = entry
+        eff = defaults if late else params
+        plan.update(forced=tape.draw(3) == 2, discard=tape.draw(5) == 4, outcome=tape.choice(OUTCOMES))
+        draw = tape.choice(DRAWS)
+        rng.values = [draw]
+        before_draws, before = rng.draws, len(spy.calls)
+        try:
+            (cls if opkind == 'class' else cls()).execute()
+            ended = 'return'
+        except R.D.ErrA:
+            ended = 'raise'
+        except R.D.Interrupt:
+            ended = 'interrupt'
+        calls = [c[0] for c in spy.calls[before:]]
+        got = 'none' if not calls else '+'.join(c for c in calls if c != 'create')
+        exp = expected_keep(eff['skipped'], eff['sampling_rate'], plan['forced'], eff['ignore_enforced_sampling'], plan['discard'], draw)
+        run.say('#%d %s %s%s forced=%s discard=%s %s draw=%s -> %s (model %s)' % (i, cls.__name__, eff, ' (defaults, parameters come later)' if late else '',
+                                                                          plan['forced'], plan['discard'], plan['outcome'], draw, got, exp))
+        run.ev('inherited', i, cls.__name__, got, ended)
+        run.check(ended == plan['outcome'], 'outcome_unchanged', 'outcome', lambda: 'operation ended by %s, expected %s' % (ended, plan['outcome']))
+        if got != exp:
+            run.violate('decision_in_history', 'history-row:inherited-operation',
+                        'operation #%d on %s (%s forced=%s discard=%s draw=%s), declared on a base class shared with classes of other parameters: cassette saw %s, policy says %s' % (
+                            i, cls.__name__, eff, plan['forced'], plan['discard'], draw, got, exp))
+        run.check(rng.draws - before_draws <= 1, 'at_most_one_draw', 'draws', 'more than one draw for one decision')
+        run.check(not recorder.is_recording_sample_forced, 'force_not_sticky', 'sticky-force', 'force flag still set after the operation')
+        if late:
+            recorder.recording_params(RecordingParameters(**params))(cls)
+            entry[2] = False
+            run.probe('parameters_applied_after_first_run')
+    return run
+
+
 def s3_calculator(tape, clock):
     """Storage-level sampling by a size-based calculator follows the same rule."""
     run = Run(PROP)
@@ -322,5 +406,5 @@ def run_index(i, seed, tier, emit):
     t = Tape(seed)
     if t.rng.random() < 0.0:
         pass
-    t = Tape(seed, prefix=[[0, 3, 5, 2, 4, 5, 6, 6][i % 8]])
+    t = Tape(seed, prefix=[[0, 3, 5, 2, 4, 7, 6, 6, 7][i % 9]])
     emit(safe_run_tape(mod, t), t)
